@@ -326,7 +326,7 @@ pub fn run(tier: &str) -> i32 {
         }
     };
     // one database per worker, so that the connection count seen after a request is that worker's own
-    for w in 0..9usize {
+    for w in 0..10usize {
         let mut adm = crate::common::session::Session::new();
         adm.call(&live.dbs, "auth admin pwd");
         adm.call(&live.dbs, &format!("create-db h{} tok", w));
@@ -497,6 +497,93 @@ pub fn run(tier: &str) -> i32 {
         }
     });
     drop(stm);
+    // large bodies: one long value, or very many commands, in one request - around and beyond 1 MiB, the size at which
+    // front ends commonly cut or refuse a body. Every command is executed once with its whole text and has its entry;
+    // a request the server does not want must be refused as a whole (any answer other than 200 is accepted as that)
+    let mut large = (0u64, 0u64, 0u64);
+    {
+        let db = "h9";
+        let mib = 1usize << 20;
+        let mut cases: Vec<(String, Vec<String>)> = vec![];
+        for total in if thorough { vec![300_000usize, mib - 40, mib - 1, mib, mib + 1, mib + 40, mib + mib / 2, 3 * mib, 6 * mib] } else { vec![300_000usize, mib - 1, mib + 40, mib + mib / 2, 3 * mib] } {
+            // (a) one long value in the middle of the batch
+            let pad = "x".repeat(total.saturating_sub(120));
+            cases.push((format!("one-value-{}", total), vec![format!("use-db {} tok", db), "set t0 before".into(), format!("set big {}", pad), "get t0".into(), "set t1 after".into(), "get t1".into(), "get big".into()]));
+            // (b) multi-byte characters all along (a cut at any byte offset falls inside one now and then)
+            let pad2 = "\u{20ac}".repeat(total / 3);
+            cases.push((format!("one-multibyte-value-{}", total), vec![format!("use-db {} tok", db), format!("set bigm {}{}", ["", "a", "ab"][total % 3], pad2), "set t2 after".into(), "get t2".into()]));
+            // (c) very many short commands
+            let n = total / 22;
+            let mut cmds = vec![format!("use-db {} tok", db)];
+            for i in 0..n {
+                cmds.push(format!("set m{:07} w{:07}", i % 500, i));
+            }
+            cmds.push(format!("get m{:07}", (n - 1) % 500));
+            cases.push((format!("many-commands-{}", total), cmds));
+        }
+        for (name, cmds) in cases {
+            let body = cmds.join(";");
+            large.0 += 1;
+            large.1 = large.1.max(body.len() as u64);
+            let kind = name.rsplitn(2, '-').nth(1).unwrap_or("").to_string();
+            let size_class = if body.len() <= mib { "up-to-1MiB" } else { "over-1MiB" };
+            match http_post(&live.http, body.as_bytes(), Duration::from_secs(120)) {
+                Err(e) if e.starts_with("status:") => {
+                    // refused as a whole: nothing of it may have been executed
+                    let mut a = crate::common::session::Session::new();
+                    a.call(&live.dbs, &format!("use-db {} tok", db));
+                    let probe = cmds.iter().rev().find(|c| c.starts_with("set ")).unwrap();
+                    let (k, val) = (probe.split(' ').nth(1).unwrap(), probe.splitn(3, ' ').nth(2).unwrap());
+                    let got = a.call(&live.dbs, &format!("get {}", k)).pushed;
+                    a.disconnect(&live.dbs);
+                    if got == vec![format!("value {}\n", val)] {
+                        v.report(json!({"check": "http", "problem": "refused-request-was-executed", "body": kind, "size": size_class}), json!({"case": name, "body_bytes": body.len(), "answer": e}));
+                    }
+                }
+                Err(e) => {
+                    v.report(json!({"check": "http", "problem": "request-not-answered", "body": kind, "size": size_class}), json!({"case": name, "body_bytes": body.len(), "error": e}));
+                }
+                Ok(reply) => {
+                    let entries: Vec<&str> = reply.split(';').collect();
+                    large.2 += entries.len() as u64;
+                    let mut problem: Option<String> = None;
+                    if entries.len() != cmds.len() {
+                        problem = Some(if entries.len() < cmds.len() { "fewer-entries-than-commands".into() } else { "more-entries-than-commands".into() });
+                    } else {
+                        for (c, e) in cmds.iter().zip(entries.iter()) {
+                            let want = if c.starts_with("get ") {
+                                let k = c.split(' ').nth(1).unwrap();
+                                let val = cmds.iter().rev().find(|x| x.starts_with(&format!("set {} ", k))).map(|x| x.splitn(3, ' ').nth(2).unwrap().to_string()).unwrap_or("<Empty>".into());
+                                format!("value {}\n", val)
+                            } else {
+                                "empty".to_string()
+                            };
+                            if *e != want {
+                                problem = Some("entry-is-not-the-commands-own-result".into());
+                                break;
+                            }
+                        }
+                    }
+                    // what was stored, read in-process afterwards
+                    if problem.is_none() {
+                        let mut a = crate::common::session::Session::new();
+                        a.call(&live.dbs, &format!("use-db {} tok", db));
+                        for c in cmds.iter().filter(|c| c.starts_with("set big") || c.starts_with("set t")) {
+                            let (k, val) = (c.split(' ').nth(1).unwrap(), c.splitn(3, ' ').nth(2).unwrap());
+                            if a.call(&live.dbs, &format!("get {}", k)).pushed != vec![format!("value {}\n", val)] {
+                                problem = Some("command-not-executed-with-its-whole-text".into());
+                            }
+                        }
+                        a.disconnect(&live.dbs);
+                    }
+                    if let Some(pb) = problem {
+                        v.report(json!({"check": "http", "problem": pb, "body": kind, "size": size_class}), json!({"case": name, "body_bytes": body.len(), "commands": cmds.len(), "entries": entries.len(), "reply_head": reply.chars().take(200).collect::<String>()}));
+                    }
+                }
+            }
+        }
+    }
+    ev.set("large_bodies", json!({"requests": large.0, "largest_body_bytes": large.1, "entries_checked": large.2}));
     // requests of different clients on ONE database, served concurrently by the HTTP workers, each with subscriptions of
     // its own and one on a key all of them watch, while a long-lived session of that database (300 subscriptions) adds
     // one more subscription: every entry is the command's own, when the burst is over the subscriptions of the requests
